@@ -1389,3 +1389,283 @@ def schedules(cx):
 
                 check2(cx, "BP result does not depend on the schedule: value exact and messages equal those of the plain "
                        "schedule up to scale", params, thunk)
+
+
+# ----------------------------------------------------------------------------------------------
+# region graphs: counting numbers
+# ----------------------------------------------------------------------------------------------
+
+def ref_region_counts(regions):
+    """intersection closure of the family (non-empty intersections) and the counting numbers
+    c(r) = 1 - sum of c(s) over the strict supersets s of r in the closure"""
+    fam = {frozenset(r) for r in regions}
+    closure = set(fam)
+    grew = True
+    while grew:
+        grew = False
+        for a, b in itertools.combinations(list(closure), 2):
+            x = a & b
+            if x and x not in closure:
+                closure.add(x)
+                grew = True
+    counts = {}
+    for r in sorted(closure, key=len, reverse=True):
+        counts[r] = 1 - sum(c for s, c in counts.items() if r < s)
+    pair = set(fam) | {a & b for a, b in itertools.combinations(list(fam), 2) if a & b}
+    deep = closure != pair
+    return counts, deep
+
+
+def check_counts(got, regions, autoprune, what):
+    want, _ = ref_region_counts(regions)
+    if autoprune:
+        want = {r: c for r, c in want.items() if c != 0}
+    if set(got) != set(want):
+        miss = [sorted(r) for r in set(want) - set(got)]
+        extra = [sorted(r) for r in set(got) - set(want)]
+        return f"{what}: regions differ from the intersection closure: missing {miss[:4]}, unexpected {extra[:4]}"
+    for r, c in want.items():
+        if got[r] != c:
+            return f"{what}: count of {sorted(r)} is {got[r]}, defining recursion gives {c}"
+    nodes = set().union(*regions) if regions else set()
+    for v in sorted(nodes):
+        tot = sum(c for r, c in got.items() if v in r)
+        if tot != 1:
+            return f"{what}: counting numbers of the regions containing node {v} sum to {tot}, not 1"
+    return None
+
+
+@driver("C14", "region-graph-counting-numbers", chunks=2, timeout=200,
+        bound="RegionGraph(regions, autocomplete=True, autoprune in {True, False}) and gen_region_counts(regions, "
+              "autocomplete=True, autoprune in {True, False}) on every family of 1..3 distinct non-empty subsets of a "
+              "4-node universe (quick) / of a 5-node universe plus 600 random families of 4..6 subsets of 6 nodes "
+              "(thorough), each also with a duplicated region and as lists / tuples: regions == intersection closure (minus "
+              "zero counts when pruning), counts obey c(r) = 1 - sum over strict supersets, and for every node the counts of "
+              "the regions containing it sum to 1")
+def region_graph(cx):
+    from quimb.tensor.belief_propagation import RegionGraph, gen_region_counts
+
+    U = 4 if cx.quick else 5
+    subsets = [frozenset(c) for k in range(1, U + 1) for c in itertools.combinations(range(U), k)]
+    fams = [list(f) for k in (1, 2, 3) for f in itertools.combinations(subsets, k)]
+    if not cx.quick:
+        rng = np.random.default_rng(12345)
+        sub6 = [frozenset(c) for k in range(1, 6) for c in itertools.combinations(range(6), k)]
+        for _ in range(600):
+            k = int(rng.integers(4, 7))
+            fams.append([sub6[int(q)] for q in rng.permutation(len(sub6))[:k]])
+    for idx, fam in enumerate(fams):
+        if not cx.mine():
+            continue
+        if cx.out_of_time():
+            cx.inconclusive.append("region-graph-counting-numbers: time budget exhausted")
+            return
+        regs = [sorted(r) for r in fam]
+        _, deep = ref_region_counts(fam)
+        base = frozenset.intersection(*fam)
+        # two regions meet exactly in the (non-empty) part common to all regions, which is not itself a given region
+        base_only = bool(base) and base not in fam and any(a & b == base for a, b in itertools.combinations(fam, 2))
+        variant = idx % 3
+        given = [tuple(r) for r in regs] if variant == 1 else ([list(r) for r in regs] + [list(regs[0])] if variant == 2
+                                                               else [set(r) for r in regs])
+        for autoprune in (True, False):
+            params = dict(regions=regs, autoprune=autoprune, given_as=["sets", "tuples", "lists+duplicate"][variant],
+                          needs_deep_closure=bool(deep), overlap_is_common_part=base_only)
+
+            def t_rg(given=given, fam=fam, autoprune=autoprune):
+                rg = RegionGraph(given, autocomplete=True, autoprune=autoprune)
+                got = {frozenset(r): rg.get_count(r) for r in rg.regions}
+                e = check_counts(got, fam, autoprune, "RegionGraph")
+                if e:
+                    return e
+                if autoprune is False and not rg.isbalanced():
+                    return "isbalanced() is False although every node count is 1"
+                return None
+
+            cx.check("RegionGraph(autocomplete=True): regions are the intersection closure and the counting numbers of the "
+                     "regions containing a node sum to 1", params, t_rg, nontrivial=len(fam) > 1)
+
+            def t_gen(given=given, fam=fam, autoprune=autoprune):
+                got = {}
+                for r, c in gen_region_counts(given, autocomplete=True, autoprune=autoprune):
+                    r = frozenset(r)
+                    if r in got:
+                        return f"region {sorted(r)} generated twice"
+                    got[r] = c
+                return check_counts(got, fam, autoprune, "gen_region_counts")
+
+            cx.check("gen_region_counts(autocomplete=True): regions are the intersection closure and the counting numbers "
+                     "of the regions containing a node sum to 1", params, t_gen, nontrivial=len(fam) > 1)
+
+
+# ----------------------------------------------------------------------------------------------
+# combine_local_contractions (the helper every flavour uses to assemble its estimate)
+# ----------------------------------------------------------------------------------------------
+
+@driver("C14", "combine-local-contractions", chunks=1, timeout=120,
+        bound="combine_local_contractions on 0..8 values (positive / signed / complex, magnitudes 1e-30..1e30), counting "
+              "numbers in {-2,-1,1,2,3} (fractional only for positive values), initial mantissa / exponent, overall power "
+              "{1, 2, 0.5 (positive data)}, strip_exponent, an exact zero among the values with check_zero=True: the result "
+              "(or mantissa * 10**exponent) == (mantissa0 * 10**exponent0 * prod x**p)**power to 1e-10 relative")
+def combine(cx):
+    from quimb.tensor.belief_propagation import combine_local_contractions
+
+    rng = cx.rng
+    N = 150 if cx.quick else 1500
+    for idx in range(N):
+        kind = ["pos", "signed", "complex"][idx % 3]
+        k = int(rng.integers(0, 9))
+        mags = 10.0 ** rng.uniform(-30, 30, size=k) if idx % 5 == 0 else 10.0 ** rng.uniform(-2, 2, size=k)
+        if kind == "pos":
+            xs = mags
+            ps = [float(rng.choice([-2, -1, 1, 2, 3, 0.5, -0.25])) for _ in range(k)]
+        elif kind == "signed":
+            xs = mags * rng.choice([-1.0, 1.0], size=k)
+            ps = [int(rng.choice([-2, -1, 1, 2, 3])) for _ in range(k)]
+        else:
+            xs = mags * np.exp(1j * rng.uniform(-np.pi, np.pi, size=k))
+            ps = [int(rng.choice([-2, -1, 1, 2, 3])) for _ in range(k)]
+        power = float(rng.choice([1.0, 1.0, 2.0, 0.5])) if kind == "pos" else float(rng.choice([1.0, 1.0, 2.0]))
+        m0 = None if idx % 2 else (float(rng.uniform(0.5, 2)) if kind == "pos" else
+                                   (-1.5 if kind == "signed" else complex(np.exp(1j * rng.uniform(-3, 3)))))
+        e0 = None if idx % 4 < 2 else float(rng.uniform(-5, 5))
+        strip = bool(idx % 2 == 0)
+        zero = bool(idx % 11 == 0 and k > 0)
+        if zero:
+            xs = np.array(xs, dtype=complex if kind == "complex" else float)
+            xs[int(rng.integers(k))] = 0.0
+            ps = [abs(p) for p in ps]
+        params = dict(idx=idx, kind=kind, k=k, power=power, strip_exponent=strip, zero=zero, mantissa=str(m0), exponent=e0,
+                      ps=ps)
+
+        def thunk(xs=xs, ps=ps, power=power, m0=m0, e0=e0, strip=strip, zero=zero):
+            vals = [(x, p) for x, p in zip(xs, ps)]
+            r = combine_local_contractions(vals, backend="numpy", strip_exponent=strip, check_zero=True, mantissa=m0,
+                                           exponent=e0, power=power)
+            if strip and not (isinstance(r, tuple) and len(r) == 2):
+                return f"strip_exponent=True did not return a pair: {r!r}"
+            got = as_value(r)
+            if zero:
+                return None if got == 0 else f"a zero value with check_zero=True gave {got}"
+            logmag = (e0 or 0.0) + sum(p * np.log10(abs(x)) for x, p in zip(xs, ps))
+            phase = complex(1.0 if m0 is None else m0)
+            for x, p in zip(xs, ps):
+                phase *= (x / abs(x)) ** p
+            logmag *= power
+            phase = phase ** power
+            if abs(logmag) > 300:
+                if not strip:
+                    return None
+                m, e = r
+                ok = abs(complex(m) - phase) <= 1e-10 * abs(phase) and abs(float(e) - logmag) <= 1e-9 * abs(logmag)
+                return None if ok else f"(mantissa, exponent) = {r}, reference ({phase}, {logmag})"
+            want = phase * 10.0 ** logmag
+            if abs(got - want) > 1e-10 * abs(want):
+                return f"got {got}, reference {want}"
+            return None
+
+        cx.check("combine_local_contractions == (mantissa0 * 10**exponent0 * prod x**p) ** power", params, thunk,
+                 nontrivial=k > 0)
+
+
+# ----------------------------------------------------------------------------------------------
+# normalisations of a converged BP object and loop / cluster corrections on trees (which must be trivial)
+# ----------------------------------------------------------------------------------------------
+
+OBJ_METHODS = {
+    "D1BP": ["normalize_message_pairs", "normalize_tensors", "get_normalized_tn", "contract_gloop_expand",
+             "contract_loop_series_expansion", "contract_with_loops"],
+    "HD1BP": ["normalize_messages", "contract_gloop_expand"],
+    "L1BP": ["normalize_message_pairs"],
+    "D2BP": ["normalize_message_pairs", "normalize_tensors", "contract_gloop_expand", "contract_loop_series_expansion"],
+    "L2BP": ["normalize_message_pairs"],
+}
+
+
+@driver("C14", "bp-object-normalisations-and-corrections-on-trees", chunks=3, timeout=200,
+        bound="converged D1BP / HD1BP / L1BP / D2BP / L2BP objects (undamped, tol=1e-11) on acyclic networks with 2..7 "
+              "tensors (closed for the one-norm flavours), positive / signed (/ complex for two-norm) double precision "
+              "data, stored exponent 0 or non-zero: normalize_message_pairs / normalize_messages / normalize_tensors / "
+              "get_normalized_tn leave contract() at the exact value (and produce the documented unit overlaps / unit "
+              "local contractions); contract_gloop_expand (default product form), contract_loop_series_expansion and "
+              "contract_with_loops on a network without loops return the exact value (rtol 1e-6)")
+def bp_objects(cx):
+    import quimb.tensor as qtn
+    import quimb.tensor.belief_propagation as qbp
+
+    reps = 1 if cx.quick else 4
+    sizes_n = [2, 5] if cx.quick else [2, 3, 4, 5, 7]
+    for flavour, methods in OBJ_METHODS.items():
+        two = flavour in ("D2BP", "L2BP")
+        datas = ["pos", "signed", "complex"] if two else ["pos", "signed"]
+        for kind, n, data, rep in itertools.product(["chain", "star", "tree", "forest"], sizes_n, datas, range(reps)):
+            seed = int(cx.rng.integers(1 << 31))
+            if two:
+                c = make_two_norm_case(seed, flavour, kind, n, data, single=False)
+                if c is None:
+                    continue
+                inds, sizes, arrays, exponent, groups = c["inds"], c["sizes"], c["arrays"], c["exponent"], c["groups"]
+                want, scale = c["norm2"], c["norm2"]
+            else:
+                c = make_one_norm_case(seed, "L1BP" if flavour == "L1BP" else "D1BP", kind, n, data)
+                if c is None:
+                    continue
+                inds, sizes, arrays, ref, _, _, _, groups, _, dtype, single, exponent, p1 = c
+                if single:
+                    arrays = [a.astype(dtype_for(data)) for a in arrays]
+                    ref = Ref(inds, sizes, arrays, exponent)
+                want, scale = ref.value, ref.zabs
+            site_tags = sorted({f"G{g}" for g in groups}) if groups is not None else None
+            for method in methods:
+                if not cx.mine():
+                    continue
+                if cx.out_of_time():
+                    cx.inconclusive.append("bp-object-normalisations-and-corrections-on-trees: time budget exhausted")
+                    return
+                params = dict(flavour=flavour, method=method, kind=kind, n=n, data=data, seed=seed,
+                              exponent_nonzero=bool(exponent), n_scalars=sum(1 for ii in inds if not ii))
+
+                def thunk(inds=inds, sizes=sizes, arrays=arrays, exponent=exponent, groups=groups, flavour=flavour,
+                          method=method, want=want, scale=scale, site_tags=site_tags):
+                    tn = build_tn(qtn, inds, sizes, arrays, exponent, groups=groups)
+                    kw = dict(site_tags=site_tags) if site_tags else {}
+                    bp = getattr(qbp, flavour)(tn, **kw)
+                    info = {}
+                    bp.run(max_iterations=60 + 10 * len(inds), tol=TOL_RUN, info=info)
+                    e = check_converged(info, 0)
+                    if e:
+                        return e
+                    e = cmp_value(as_value(bp.contract()), want, scale, RTOL, "contract() before the call")
+                    if e:
+                        return e
+                    if method in ("normalize_message_pairs", "normalize_messages"):
+                        getattr(bp, method)()
+                        if flavour in ("D1BP", "D2BP"):
+                            for ix, tids in bp.tn.ind_map.items():
+                                if len(tids) == 2:
+                                    a, b = (np.asarray(bp.messages[ix, t]).reshape(-1) for t in tids)
+                                    if abs(abs(a @ b) - 1) > 1e-8 or abs(a @ a - b @ b) > 1e-8 * abs(a @ a):
+                                        return f"bond {ix}: <mi|mj> = {a @ b}, <mi|mi> = {a @ a}, <mj|mj> = {b @ b}"
+                        got = as_value(bp.contract())
+                    elif method == "normalize_tensors":
+                        bp.normalize_message_pairs()
+                        bp.normalize_tensors()
+                        for tid in bp.tn.tensor_map:
+                            v = complex(bp.local_tensor_contract(tid))
+                            if abs(v - 1) > 1e-8:
+                                return f"local contraction of tensor {tid} is {v} after normalize_tensors"
+                        got = as_value(bp.contract())
+                    elif method == "get_normalized_tn":
+                        bp.normalize_message_pairs()
+                        tnn, sign, ex = bp.get_normalized_tn()
+                        val, _ = dense_by_einsum(tnn, [])
+                        got = complex(val) * complex(sign) * 10.0 ** float(np.real(ex))
+                        e = cmp_value(as_value(bp.contract()), want, scale, RTOL, "contract() after get_normalized_tn")
+                        if e:
+                            return e
+                    else:
+                        got = as_value(getattr(bp, method)())
+                    return cmp_value(got, want, scale, RTOL, f"{flavour}.{method}: value")
+
+                cx.check("converged BP object on a tree: normalisation methods keep contract() exact; loop / cluster "
+                         "corrections are trivial (value stays exact)", params, thunk)
